@@ -29,10 +29,12 @@ LEVEL_NOTE = ("Trusted: Coq kernel + stdlib real axioms (reported per obligation
               "per-sample reward with non-sum reductions (non-negativity only), delays between two steps, floating-point "
               "rounding. Per-cell hyperparameter overrides (register_cell keywords) are not a theorem: the theorems are per cell in "
               "its EFFECTIVE hyperparameters; that every trainer reads the per-cell state (and not its constructor defaults) is "
-              "checked by the correspondence / oracle on groups of cells driven by one trainer object. Known finding: "
+              "checked by the correspondence / oracle on groups of cells driven by one trainer object. Finding candidate: the kernel trainers' depressing part is "
+              "-reduction(negative sums), which for torch.amax / torch.amin is the opposite extremum of the magnitudes "
+              "(kernel_amax_depression_refuted; signature kernel_depression_negated_after_reduction). Known finding: "
               "LinearHomeostasis' depressing part is negative-valued (tests pin it). Formerly: forward(target=None) "
               "of a LinearHomeostasis trainer with several cells used the FIRST cell's default target for all later cells "
-              "- found by this check, REPAIRED upstream (6f3edbb); the old loop is kept as the refuted variant targets_used_old "
+              "- found by this check, REPAIRED upstream (6f3edbb; likewise MSTDPET's pooling tags, ab96bed); the old loop is kept as the refuted variant targets_used_old "
               "(old_target_carryover_refuted), corpus/C09/04 is the regression case and a recurrence is a VIOLATION.")
 LEVEL_TEXT = ("Machine-checked (Coq, reals), for ALL spike histories, batch sizes, signals, reductions and the four sign modes: "
               "both parts of every STDP / StableSTDP / TripletSTDP / StableTripletSTDP / MSTDP / MSTDPET call and of the "
@@ -59,7 +61,9 @@ LEVEL_TEXT = ("Machine-checked (Coq, reals), for ALL spike histories, batch size
               "homeostasis_breaks_soft_bounds]; which target each cell of one trainer sees: an explicit forward(target) reaches "
               "every cell, otherwise each cell sees its own default, RuntimeError exactly for the cells without any "
               "[targets_used_is_doc, targets_used_default, targets_used_none_iff]; the pre-repair loop refuted "
-              "[old_target_carryover_refuted].")
+              "[old_target_carryover_refuted]; the kernel trainers' parts are, per half kernel, the reductions of the sample sums "
+              "of the non-negative / negative contributions [kernel_parts_contract, kernel_depression_linear], joining the "
+              "half kernels before the split loses parts [kernel_joined_split_refuted].")
 EXPLANATION = LEVEL_TEXT
 HEADER = ("From Coq Require Import List ZArith Bool PrimFloat.\n"
           "From Inferno Require Import Base.Num Base.NumF C08.Stdp C09.Split C09.SplitExec.\n"
@@ -1436,7 +1440,11 @@ def run(ctx):
                  "differ in exactly one hyperparameter, rotating over all of them, so that every other monitor of the pair is "
                  "poolable), and LinearHomeostasis on the same Biclique layout (cells sharing a neuron group pool the "
                  "spike_rate monitor; cells sharing a connection and a parameter share the accumulator); the oracle uses each "
-                 "cell's effective hyperparameters; "
+                 "cell's effective hyperparameters; KernelSTDP / DelayAdjustedKernelSTDP / DelayAdjustedKernelSTDPD with CUSTOM half "
+                 "kernels (callables c + a(+/-) exp(-|t|/tc): mixed sign on overlapping supports, non-zero on both sides of 0, "
+                 "constant, offset, stock-like) x all rate sign combinations x sum / mean / amax / amin, 2-3 cells per trainer "
+                 "object with kernel-kwargs / reduction overrides, bounds on the trained weight or delay, judged per part from the "
+                 "spike histories; "
                  "non-trivial = >= 2 steps (STDP: "
                  "with a pre and a post spike)" % (2 if quick else 3)),
         "samples": [strip(c) for c in (homeo[1:2] + stdp[:1])],
